@@ -93,6 +93,45 @@ pub trait Family: Send + Sync {
   }
 }
 
+/// a family restricted to the workloads that satisfy a predicate (re-drawn until one does)
+pub struct Only {
+  pub inner: Box<dyn Family>,
+  pub name: &'static str,
+  pub pred: fn(&Json) -> bool,
+}
+
+impl Family for Only {
+  fn name(&self) -> &'static str {
+    self.name
+  }
+  fn threaded(&self) -> bool {
+    self.inner.threaded()
+  }
+  fn gen(&self, rng: &mut Rng, tier: Tier) -> Json {
+    loop {
+      let w = self.inner.gen(rng, tier);
+      if (self.pred)(&w) {
+        return w;
+      }
+    }
+  }
+  fn knobs(&self, rng: &mut Rng, w: &Json, tier: Tier) -> Json {
+    self.inner.knobs(rng, w, tier)
+  }
+  fn exec(&self, w: &Json, cfg: RunCfg) -> RunOut {
+    if !(self.pred)(w) {
+      return RunOut::invalid();
+    }
+    self.inner.exec(w, cfg)
+  }
+  fn explains(&self, pred: &str, w: &Json, v: &Violation) -> bool {
+    self.inner.explains(pred, w, v)
+  }
+  fn shrink(&self, w: &Json) -> Vec<Json> {
+    self.inner.shrink(w)
+  }
+}
+
 pub fn default_knobs(rng: &mut Rng, threaded: bool) -> Json {
   let strategy = if !threaded {
     "random".to_string()
